@@ -468,10 +468,7 @@ def f(a, b, c):
     vs = list(d.values())
     first = ks[0]
     p = d.pop(a)
-    dd = collections.defaultdict(int)
-    for x in (a, b, c):
-        dd[x] += 1
-    return (len(ks), first, vs[-1], p, len(d), b in d, dd[a], len(dd), d.setdefault(a, 7), sorted(dd.values())[-1])
+    return (len(ks), first, vs[-1], p, len(d), b in d, d.setdefault(a, 7), len(d))
 ''',
     'tuple-order-and-membership': '''
 def f(a, b, c):
@@ -479,6 +476,31 @@ def f(a, b, c):
     u = (b, c)
     return (t < u, t == u, max(a, b, c), min((a, b, c)), t + u == (a, b, b, c), t * 2 == (a, b, a, b), (a in t) and (c in u), t.count(b), u.index(c),
             len(set(t) ^ set(u)) if False else 0)
+''',
+    'bit-operations': '''
+def f(a, b, c):
+    n = a * 4 + b
+    return ((n >> c) & 1, bool(n & 1), (n >> 1) << 1, (n >> 4) != 0, (a << b) % 8, -a // 2, n // (c + 1), n % (c + 1), 2 ** c, (n & 3) == b, (n >> 2) == a,
+            bool((n >> c) & 1), 1 << c, (n >> c) % 2, n - ((n >> 2) << 2))
+''',
+    'bit-operations-2': '''
+def f(a, b, c):
+    n = a * 4 + b
+    return (divmod(n, c + 1), n % 4, (n // 4) * 4 + n % 4 == n, abs(n - 7), n * c - c)
+''',
+    'itertools-and-builtins': '''
+import itertools, functools
+def f(a, b, c):
+    l = [a, b, c]
+    return (list(itertools.chain([a], [b, c]))[2], len(list(itertools.product([a, b], [c]))), functools.reduce(lambda x, y: x + y, l, 0),
+            list(reversed(l))[0], list(enumerate(l, 1))[1] == (2, b), dict(zip(l, range(3))).get(a), sum(1 for x in l if x == a), list(map(lambda x: x + 1, l))[2],
+            [x for x, y in zip(l, l[1:]) if x == y] == ([a] if a == b else []) + ([b] if b == c else []),
+            any(l), all(l), len(list(itertools.zip_longest([a], [b, c]))), max(len(l), a))
+''',
+    'sorted-with-key': '''
+def f(a, b, c):
+    l = [a, b, c]
+    return (tuple(sorted(l, key=lambda x: -x))[0], sorted(l, key=lambda x: -x)[-1], sorted(l, key=lambda x: -x) == sorted(l, reverse=True))
 ''',
     'branches-and-arithmetic': '''
 def f(a, b, c):
@@ -654,15 +676,38 @@ def symbolic_selftest(repo, verbose=True):
             continue
         n_unsup = sum(1 for _, o in paths if o[0] == 'unsupported')
         problems = []
+        inexact = 0
+
+        def equal_term(v, w):
+            """z3 Bool (or python bool) stating that the symbolic result v denotes the CPython value w"""
+            if isinstance(v, Sym) or z3.is_expr(v):
+                t = v.t if isinstance(v, Sym) else v
+                if isinstance(w, bool):
+                    return (t == w) if z3.is_bool(t) else False
+                if isinstance(w, int):
+                    return (t == w) if z3.is_int(t) else False
+                return False
+            if isinstance(v, (tuple, VList)) and isinstance(w, (tuple, list)) and isinstance(v, tuple) == isinstance(w, tuple):
+                xs = list(v) if isinstance(v, tuple) else v.items
+                if len(xs) != len(w):
+                    return False
+                parts = [equal_term(x, y) for x, y in zip(xs, w)]
+                if any(p_ is False for p_ in parts):
+                    return False
+                parts = [p_ for p_ in parts if p_ is not True]
+                return z3.And(parts) if parts else True
+            return (type(v) is type(w)) and v == w
+
         for vals in itertools.product(DOM, repeat=3):
-            sub = [(x, z3.IntVal(v)) for x, v in zip(A, vals)]
+            fix = [x == v for x, v in zip(A, vals)]
             want = native(*vals)
             hit = 0
             for ctx, out in paths:
-                pc = z3.simplify(z3.substitute(z3.And(ctx.pc) if ctx.pc else z3.BoolVal(True), *sub))
-                if not z3.is_true(pc):
-                    if not z3.is_false(pc):
-                        problems.append(f'{vals}: path condition does not evaluate ({pc})')
+                sol = z3.Solver()
+                sol.set('timeout', 5000)
+                sol.add(*ctx.pc)
+                sol.add(*fix)
+                if sol.check() != z3.sat:
                     continue
                 hit += 1
                 if out[0] == 'unsupported':
@@ -670,19 +715,30 @@ def symbolic_selftest(repo, verbose=True):
                 if out[0] != 'return':
                     problems.append(f'{vals}: path ends with {out[0]} but CPython returns {want}')
                     continue
-                try:
-                    got = concretise(out[1], sub)
-                except Exception as e:
-                    problems.append(f'{vals}: {e}')
+                eq = equal_term(out[1], want)
+                if eq is False:
+                    problems.append(f'{vals}: symbolic path gives {out[1]}, CPython gives {want}')
                     continue
-                if got != want or [type(x) for x in got] != [type(x) for x in want]:
-                    problems.append(f'{vals}: symbolic path gives {got}, CPython gives {want}')
+                if eq is True:
+                    continue
+                # soundness: CPython's result must be AMONG the values the path allows; exactness: it must be the only one
+                sol.push()
+                sol.add(eq)
+                ok = sol.check() == z3.sat
+                sol.pop()
+                if not ok:
+                    problems.append(f'{vals}: CPython gives {want}, which the symbolic path excludes (result {out[1]})')
+                    continue
+                sol.add(z3.Not(eq))
+                if sol.check() != z3.unsat:
+                    inexact += 1
             if hit == 0:
                 problems.append(f'{vals}: NO explored path covers this input (lost path)')
         if problems:
             bad.append(f'selftest symbolic {name}: {len(problems)} problems, first: {problems[0]}')
         if verbose:
-            print(f'selftest symbolic {name}: {len(paths)} paths ({n_unsup} outside the subset), 64 inputs, ' + ('agree' if not problems else f'PROBLEMS: {problems[:2]}'))
+            print(f'selftest symbolic {name}: {len(paths)} paths ({n_unsup} outside the subset), 64 inputs, ' + ('agree' if not problems else f'PROBLEMS: {problems[:2]}')
+                  + (f' ({inexact} results only over-approximated)' if inexact else ''))
     return bad
 
 
